@@ -61,6 +61,11 @@ Definition snprintf_store (len : N) (text : list N) : list N :=
 Definition ipv4_to_str (a len : N) : Z * list N :=
   (0%Z, snprintf_store len (ipv4_text a)).
 
+(* the same with the proposed repair (proposed_fixes/C19-ipv4-truncation.diff):
+   "if (n < 0 || (unsigned int)n >= len) return -1;" - the bytes are stored all the same *)
+Definition ipv4_to_str_fixed (a len : N) : Z * list N :=
+  ((if N.of_nat (length (ipv4_text a)) <? len then 0%Z else (-1)%Z), snprintf_store len (ipv4_text a)).
+
 (* ---- sscanf "%3hhu" ------------------------------------------------------ *)
 Fixpoint skip_ws (s : list N) : list N :=
   match s with
